@@ -595,12 +595,17 @@ def workload_frames(seed):
     return centers, ref, unk, rnd
 
 
-def workload(rank, root, seed, mw, create_mw=None):
-    """The same program on every rank (and, with rank None, single process)."""
+def workload(rank, root, seed, mw, create_mw=None, progress=False, sorted_input=False):
+    """The same program on every rank (and, with rank None, single process).
+    progress: every step runs with the progress display on (results pass through the Indicator wrapper on every rank);
+    sorted_input: the input tables are ordered on the sky (patch by patch, highest patch first), so different chunks -
+    and with them different sender ranks - hold different patches."""
     yaw = data.import_yaw()
     centers, ref, unk, rnd = workload_frames(seed)
+    if sorted_input:
+        ref, unk, rnd = (df.sort_values("pid", ascending=False, kind="stable").reset_index(drop=True) for df in (ref, unk, rnd))
     kw = dict(ra_name="ra", dec_name="dec", weight_name="w", patch_centers=centers, overwrite=True, chunksize=40,
-              max_workers=(create_mw if rank is not None else 1))
+              max_workers=(create_mw if rank is not None else 1), progress=progress)
     cref = yaw.Catalog.from_dataframe(f"{root}/ref", ref, redshift_name="z", **kw)
     cunk = yaw.Catalog.from_dataframe(f"{root}/unk", unk, **kw)
     crnd = yaw.Catalog.from_dataframe(f"{root}/rnd", rnd, redshift_name="z", **kw)
@@ -612,11 +617,11 @@ def workload(rank, root, seed, mw, create_mw=None):
     out["meta"] = dict(num=list(cat.get_num_records()), sw=list(cat.get_sum_weights()),
                        radii=[float(x) for x in cat.get_radii().data], centers=cat.get_centers().data.tolist())
     config = yaw.Configuration.create(rmin=500.0, rmax=5000.0, zmin=0.1, zmax=1.0, num_bins=3, max_workers=mw)
-    (cf,) = yaw.crosscorrelate(config, cref, cunk, unk_rand=crnd, max_workers=mw)
+    (cf,) = yaw.crosscorrelate(config, cref, cunk, unk_rand=crnd, max_workers=mw, progress=progress)
     out["cross"] = data.corrfunc_fingerprint(cf)
-    (af,) = yaw.autocorrelate(config, cref, crnd, max_workers=mw)
+    (af,) = yaw.autocorrelate(config, cref, crnd, max_workers=mw, progress=progress)
     out["auto"] = data.corrfunc_fingerprint(af)
-    h = yaw.HistData.from_catalog(cref, config, max_workers=mw)
+    h = yaw.HistData.from_catalog(cref, config, max_workers=mw, progress=progress)
     out["hist"] = dict(data=h.data.tolist(), samples=h.samples.tolist())
     cf.to_file(f"{root}/cf.hdf")
     back = yaw.CorrFunc.from_file(f"{root}/cf.hdf")
@@ -661,10 +666,14 @@ def workloads(ctx, rng, root):
         sseed = rng.randrange(1 << 30)
         wroot = root / f"w{i}"
         wroot.mkdir()
-        out = fakempi.run_world(size, lambda r: workload(r, str(wroot), seed, mw), seed=sseed, send_modes=modes)
-        ctx.evaluated(1, ("workload", size, mw, modes, sseed))
+        progress, sorted_input = i % 3 == 1, i % 2 == 1
+        from harness.yawenv import quiet_fds
+
+        with quiet_fds():
+            out = fakempi.run_world(size, lambda r: workload(r, str(wroot), seed, mw, progress=progress, sorted_input=sorted_input), seed=sseed, send_modes=modes)
+        ctx.evaluated(1, ("workload", size, mw, modes, sseed, progress, sorted_input))
         ctx.validated(1)
-        where = dict(size=size, max_workers=mw, send_modes=list(modes), schedule_seed=sseed)
+        where = dict(size=size, max_workers=mw, send_modes=list(modes), schedule_seed=sseed, progress_display=progress, input_sorted_by_patch=sorted_input)
         mwkey = "max_workers=1" if mw == 1 else "max_workers=ok"
         if out["mpi_errors"]:
             ctx.violation(f"C06|workload|{mwkey}|collective_mismatch", dict(where=where, errors=out["mpi_errors"][:3]))
